@@ -128,16 +128,63 @@ def atom_edges(cfg: CFG, pred: Callable[[ast.AST], Optional[bool]]) -> Set[Edge]
     the truth value ``pred(a)`` (``pred`` returns None for unrelated tests)."""
     out: Set[Edge] = set()
     reach = cfg.reachable()
+    named = _stable_named_tests(cfg)
     for n in cfg.nodes:
         if n.id not in reach or n.kind != "test":
             continue
         a, flip = canon_atom(n.ast)
         want = pred(a)
+        if want is None and isinstance(a, ast.Name) and a.id in named:
+            # `ok = <comparison>` ... `if ok:`  — a named boolean whose operands are never rebound
+            a2, flip2 = canon_atom(named[a.id])
+            want = pred(a2)
+            if want is not None:
+                flip = flip != flip2
         if want is None:
             continue
         for sid, kind in cfg.succ[n.id]:
             if kind in ("true", "false") and ((kind == "true") != flip) == want:
                 out.add((n.id, sid, kind))
+    return out
+
+
+def _stable_named_tests(cfg: CFG) -> Dict[str, ast.AST]:
+    """single-binding locals bound to an atomic boolean expression (comparison / call / not ...) all of whose operand
+    names are themselves never re-bound in the function and which mentions no attribute that the function stores"""
+    cached = getattr(cfg, "_x_http_named", None)
+    if cached is not None:
+        return cached
+    fn = cfg.fn
+    binds = single_bindings(fn)
+    assigned: Dict[str, int] = {}
+    stored_attrs: Set[str] = set()
+    for n in q.walk_body(fn):
+        if isinstance(n, ast.Name) and isinstance(n.ctx, (ast.Store, ast.Del)):
+            assigned[n.id] = assigned.get(n.id, 0) + 1
+        elif isinstance(n, (ast.Assign, ast.AugAssign, ast.AnnAssign, ast.Delete)):
+            for p in q.assigned_paths(n):
+                if "." in p:
+                    stored_attrs.add(p.replace("[]", ""))
+    out: Dict[str, ast.AST] = {}
+    for name, val in binds.items():
+        if not isinstance(val, (ast.Compare, ast.Call, ast.UnaryOp)) or isinstance(val, ast.Await) or q.has_suspension(val):
+            continue
+        if isinstance(val, ast.UnaryOp) and not isinstance(val.op, ast.Not):
+            continue
+        ok = True
+        for x in ast.walk(val):
+            if isinstance(x, ast.Name) and isinstance(x.ctx, ast.Load) and assigned.get(x.id, 0) > 1:
+                ok = False
+            if isinstance(x, ast.Attribute):
+                d = q.dotted(x)
+                if d and any(d == sp or d.startswith(sp + ".") or sp.startswith(d + ".") for sp in stored_attrs):
+                    ok = False
+        if ok:
+            out[name] = val
+    try:
+        cfg._x_http_named = out
+    except Exception:
+        pass
     return out
 
 
@@ -576,6 +623,11 @@ def _tailify(body: List[ast.stmt]) -> List[ast.stmt]:
             st.orelse = _tailify(st.orelse)
             for h in st.handlers:
                 h.body = _tailify(h.body)
+            # try: A  except: <terminates>   followed by REST   ==   try: A  except: ...  else: REST
+            if i < len(body) - 1 and st.handlers and all(_terminates(h.body) for h in st.handlers) and any(_has_return(x) for x in body[i + 1:] + st.handlers):
+                st.orelse = st.orelse + _tailify(body[i + 1:])
+                out.append(st)
+                return out
         elif isinstance(st, (ast.With, ast.AsyncWith)):
             st.body = _tailify(st.body)
         out.append(st)
@@ -653,7 +705,7 @@ def _inline_call_stmt(repo: Repo, fi: FuncInfo, st: ast.stmt, no_inline: Set[str
         awaited = True
     if not isinstance(v, ast.Call):
         return None
-    if isinstance(st, ast.Assign) and not (len(st.targets) == 1 and q.dotted(st.targets[0])):
+    if isinstance(st, ast.Assign) and not (len(st.targets) == 1 and (q.dotted(st.targets[0]) or (isinstance(st.targets[0], (ast.Tuple, ast.List)) and all(isinstance(x, ast.Name) for x in st.targets[0].elts)))):
         return None
     h = resolve_call(repo, fi, v)
     if h is None or h.file != fi.file or h.node is fi.node or h.qualname == fi.qualname:
@@ -690,7 +742,7 @@ def _inline_call_stmt(repo: Repo, fi: FuncInfo, st: ast.stmt, no_inline: Set[str
     body = _tailify(_copy.deepcopy(hn.body))
     if body and isinstance(body[0], ast.Expr) and isinstance(body[0].value, ast.Constant) and isinstance(body[0].value.value, str):
         body = body[1:]
-    if not _tail_ok(body):
+    if not isinstance(st, ast.Return) and not _tail_ok(body):
         return None
     _INLINE_COUNTER[0] += 1
     pre = "_inl%d_" % _INLINE_COUNTER[0]
@@ -705,6 +757,35 @@ def _inline_call_stmt(repo: Repo, fi: FuncInfo, st: ast.stmt, no_inline: Set[str
         defaults = defaults[1:]
     binds: List[ast.stmt] = []
     kw = {k.arg: k.value for k in v.keywords}
+    assigned_in_helper = {n.id for s0 in hn.body for n in q.walk_local(s0) if isinstance(n, ast.Name) and isinstance(n.ctx, (ast.Store, ast.Del))}
+    target_name = None
+    if isinstance(st, ast.Assign) and isinstance(st.targets[0], ast.Name):
+        target_name = st.targets[0].id
+    elif isinstance(st, ast.AnnAssign) and isinstance(st.target, ast.Name):
+        target_name = st.target.id
+    expr_subst: Dict[str, ast.AST] = {}
+
+    def reads_of(nm):
+        return sum(1 for s0 in hn.body for n in q.walk_local(s0) if isinstance(n, ast.Name) and n.id == nm and isinstance(n.ctx, ast.Load))
+
+    _rets0 = [x for s0 in body for x in q.walk_local(s0) if isinstance(x, ast.Return)]
+
+    def bind_param(nm, val):
+        # x = helper(x, ...) where the helper updates its parameter and returns it on every path: it works on x in place
+        if isinstance(val, ast.Name) and val.id == target_name and _rets0 and all(isinstance(r.value, ast.Name) and r.value.id == nm for r in _rets0):
+            mapping[nm] = val.id
+            return
+        # a plain local name handed to a parameter the helper never rebinds: the helper simply works on that name
+        if isinstance(val, ast.Name) and nm not in assigned_in_helper and val.id != target_name:
+            mapping[nm] = val.id
+            return
+        # a call-free expression over locals used exactly once by the helper: substitute it
+        if nm not in assigned_in_helper and reads_of(nm) == 1 and not any(isinstance(x, (ast.Await, ast.Attribute, ast.Subscript, ast.Yield, ast.NamedExpr)) for x in ast.walk(val)) \
+                and all((not isinstance(x, ast.Call)) or (isinstance(x.func, ast.Name) and x.func.id in ("len", "bool", "int", "str", "min", "max")) for x in ast.walk(val)) \
+                and not (q.names_in(val) & (locs | ({target_name} if target_name else set()))) and not isinstance(val, ast.Constant):
+            expr_subst[pre + nm] = val
+        binds.append(ast.Assign(targets=[ast.Name(id=pre + nm, ctx=ast.Store())], value=val))
+
     for i, nm in enumerate(names):
         if i < len(v.args):
             val = v.args[i]
@@ -714,7 +795,7 @@ def _inline_call_stmt(repo: Repo, fi: FuncInfo, st: ast.stmt, no_inline: Set[str
             val = _copy.deepcopy(defaults[i])
         else:
             return None
-        binds.append(ast.Assign(targets=[ast.Name(id=pre + nm, ctx=ast.Store())], value=val))
+        bind_param(nm, val)
     for x, dv in zip(a.kwonlyargs, a.kw_defaults):
         if x.arg in kw:
             val = kw[x.arg]
@@ -723,8 +804,24 @@ def _inline_call_stmt(repo: Repo, fi: FuncInfo, st: ast.stmt, no_inline: Set[str
         else:
             return None
         mapping[x.arg] = pre + x.arg
-        binds.append(ast.Assign(targets=[ast.Name(id=pre + x.arg, ctx=ast.Store())], value=val))
+        bind_param(x.arg, val)
+    # the helper's result variable becomes the caller's target when every return hands back the same local (or a constant)
+    if target_name is not None and target_name not in {n for av in list(v.args) + [k.value for k in v.keywords] for n in q.names_in(av)}:
+        rets = [x for s0 in body for x in q.walk_local(s0) if isinstance(x, ast.Return)]
+        rnames = {x.value.id for x in rets if isinstance(x.value, ast.Name)}
+        if len(rnames) == 1 and all(x.value is None or isinstance(x.value, (ast.Name, ast.Constant)) for x in rets):
+            rn = next(iter(rnames))
+            if rn in locs and rn not in names and mapping.get(rn) == pre + rn and target_name not in locs - {rn}:
+                mapping[rn] = target_name
     body = [_Rename(mapping).visit(s) for s in body]
+    if expr_subst:
+        class _ES(ast.NodeTransformer):
+            def visit_Name(self, n):
+                if isinstance(n.ctx, ast.Load) and n.id in expr_subst:
+                    return ast.copy_location(_copy.deepcopy(expr_subst[n.id]), n)
+                return n
+        body = [_ES().visit(s) for s in body]
+        binds = [b for b in binds if b.targets[0].id not in expr_subst]
     if isinstance(st, ast.Return):
         new = body
         if not _terminates(new):
@@ -739,6 +836,7 @@ def _inline_call_stmt(repo: Repo, fi: FuncInfo, st: ast.stmt, no_inline: Set[str
             init = [] if _terminates_all_paths_with_return(body) else [ast.Assign(targets=[_copy.deepcopy(tgt)], value=ast.Constant(value=None))]
         new = init + _rewrite_returns(body, make)
     out = binds + new
+    out = _drop_self_assign(out)
     for s in out:
         ast.copy_location(s, st)
         ast.fix_missing_locations(s)
@@ -746,6 +844,21 @@ def _inline_call_stmt(repo: Repo, fi: FuncInfo, st: ast.stmt, no_inline: Set[str
 
 
 FuncNodeT = (ast.FunctionDef, ast.AsyncFunctionDef)
+
+
+def _drop_self_assign(body: List[ast.stmt]) -> List[ast.stmt]:
+    out = []
+    for st in body:
+        if isinstance(st, ast.Assign) and len(st.targets) == 1 and isinstance(st.targets[0], ast.Name) and isinstance(st.value, ast.Name) and st.value.id == st.targets[0].id:
+            continue
+        for fld in ("body", "orelse"):
+            sub = getattr(st, fld, None)
+            if isinstance(sub, list) and sub and isinstance(sub[0], ast.stmt):
+                setattr(st, fld, _drop_self_assign(sub) or [ast.Pass()])
+        for h in getattr(st, "handlers", []) or []:
+            h.body = _drop_self_assign(h.body) or [ast.Pass()]
+        out.append(st)
+    return out
 
 
 def _terminates_all_paths_with_return(body: List[ast.stmt]) -> bool:
@@ -764,7 +877,7 @@ def _terminates_all_paths_with_return(body: List[ast.stmt]) -> bool:
     return False
 
 
-def norm_func(repo: Repo, fi: FuncInfo, depth: int = 2, no_inline: Optional[Set[str]] = None) -> FuncInfo:
+def norm_func(repo: Repo, fi: FuncInfo, depth: int = 3, no_inline: Optional[Set[str]] = None) -> FuncInfo:
     """``fi`` with statement-level calls of private same-file helpers (tail-returning, non-recursive, at most 40
     statements, not themselves anchors) replaced by the helper's body.  The result has the same qualified name, so
     findings are keyed by the anchored function."""
@@ -780,6 +893,65 @@ def norm_func(repo: Repo, fi: FuncInfo, depth: int = 2, no_inline: Optional[Set[
     for _round in range(depth):
         changed = False
 
+        def inlinable(c) -> bool:
+            if not isinstance(c, ast.Call):
+                return False
+            h = resolve_call(repo, cur, c)
+            return h is not None and h.file == cur.file and h.name.startswith("_") and not h.name.startswith("__") and h.name not in no_inline and h.qualname != cur.qualname
+
+        PURE_WRAP = ("bool", "int", "len", "str")
+
+        def hoistable(e):
+            """the single inlinable helper call of expression ``e`` (possibly awaited and wrapped in not/bool()/comparison
+            with constants), if it is the only call of the expression; else None"""
+            calls = [x for x in ast.walk(e) if isinstance(x, ast.Call) and not (isinstance(x.func, ast.Name) and x.func.id in PURE_WRAP)]
+            cands = [c for c in calls if inlinable(c)]
+            if len(cands) != 1:
+                return None
+            target = cands[0]
+            if len(calls) > 1:
+                # other calls are tolerated only if the helper call is evaluated before them: it is nested in their
+                # argument lists, their callee expressions are call-free and no earlier sibling argument contains a call
+                pm = q.parent_map(e)
+                for oc in calls:
+                    if oc is target:
+                        continue
+                    if not any(x is target for x in ast.walk(oc)):
+                        return None
+                    if any(isinstance(x, (ast.Call, ast.Await)) for x in ast.walk(oc.func)):
+                        return None
+                    for a_ in list(oc.args) + [k.value for k in oc.keywords]:
+                        if any(x is target for x in ast.walk(a_)):
+                            break
+                        if any(isinstance(x, (ast.Call, ast.Await)) for x in ast.walk(a_)):
+                            return None
+                calls = [target]
+            if any(isinstance(x, (ast.Lambda, ast.GeneratorExp, ast.ListComp, ast.SetComp, ast.DictComp, ast.IfExp, ast.BoolOp, ast.NamedExpr)) for x in ast.walk(e)):
+                return None
+            aw = [x for x in ast.walk(e) if isinstance(x, ast.Await) and x.value is calls[0]]
+            other_aw = [x for x in ast.walk(e) if isinstance(x, ast.Await) and x.value is not calls[0] and not any(y is calls[0] for y in ast.walk(x))]
+            if other_aw:
+                return None
+            return aw[0] if aw else calls[0]
+
+        def hoist(e, st_like):
+            """(pre-statements, new expression) with the helper call of ``e`` bound to a fresh temporary"""
+            nonlocal changed
+            tgt = hoistable(e)
+            if tgt is None:
+                return None
+            if e is tgt:
+                return None  # plain `x = helper()` / `return helper()` is handled by the statement inliner
+            _INLINE_COUNTER[0] += 1
+            tmp = "_inlr%d" % _INLINE_COUNTER[0]
+            asg = ast.copy_location(ast.Assign(targets=[ast.Name(id=tmp, ctx=ast.Store())], value=tgt), st_like)
+            ast.fix_missing_locations(asg)
+            rep = _inline_call_stmt(repo, cur, asg, no_inline)
+            if rep is None:
+                return None
+            changed = True
+            return rep, _subst_node(e, tgt, ast.Name(id=tmp, ctx=ast.Load()))
+
         def visit(body: List[ast.stmt]) -> List[ast.stmt]:
             nonlocal changed
             out = []
@@ -792,6 +964,45 @@ def norm_func(repo: Repo, fi: FuncInfo, depth: int = 2, no_inline: Optional[Set[
                     changed = True
                     out.extend(rep)
                     continue
+                # helper call inside a test / a returned or assigned expression: bind it to a temporary first
+                if isinstance(st, ast.While) and not st.orelse:
+                    h = None
+                    tgt = hoistable(st.test)
+                    if tgt is not None:
+                        _INLINE_COUNTER[0] += 1
+                        tmp = "_inlr%d" % _INLINE_COUNTER[0]
+                        asg = ast.copy_location(ast.Assign(targets=[ast.Name(id=tmp, ctx=ast.Store())], value=tgt), st)
+                        ast.fix_missing_locations(asg)
+                        rep = _inline_call_stmt(repo, cur, asg, no_inline)
+                        if rep is not None:
+                            changed = True
+                            newtest = _subst_node(st.test, tgt, ast.Name(id=tmp, ctx=ast.Load())) if st.test is not tgt else ast.Name(id=tmp, ctx=ast.Load())
+                            brk = ast.If(test=ast.UnaryOp(op=ast.Not(), operand=newtest), body=[ast.Break()], orelse=[])
+                            st.test = ast.Constant(value=True)
+                            st.body = rep + [brk] + visit(st.body)
+                            for x in [brk]:
+                                ast.copy_location(x, st)
+                                ast.fix_missing_locations(x)
+                            out.append(st)
+                            continue
+                elif isinstance(st, ast.If):
+                    tgt = hoistable(st.test)
+                    if tgt is not None:
+                        _INLINE_COUNTER[0] += 1
+                        tmp = "_inlr%d" % _INLINE_COUNTER[0]
+                        asg = ast.copy_location(ast.Assign(targets=[ast.Name(id=tmp, ctx=ast.Store())], value=tgt), st)
+                        ast.fix_missing_locations(asg)
+                        rep = _inline_call_stmt(repo, cur, asg, no_inline)
+                        if rep is not None:
+                            changed = True
+                            st.test = _subst_node(st.test, tgt, ast.Name(id=tmp, ctx=ast.Load())) if st.test is not tgt else ast.Name(id=tmp, ctx=ast.Load())
+                            out.extend(rep)
+                elif isinstance(st, (ast.Return, ast.Assign, ast.Expr)) and st.value is not None:
+                    r = hoist(st.value, st)
+                    if r is not None:
+                        pre_stmts, newval = r
+                        st.value = newval
+                        out.extend(pre_stmts)
                 for fld in ("body", "orelse", "finalbody"):
                     sub = getattr(st, fld, None)
                     if isinstance(sub, list) and sub and isinstance(sub[0], ast.stmt):
@@ -805,13 +1016,42 @@ def norm_func(repo: Repo, fi: FuncInfo, depth: int = 2, no_inline: Optional[Set[
         if not changed:
             break
         changed_any = True
+    # private same-file helpers that are still called but could not be inlined (early returns inside loops, recursion,
+    # generators, ...): rules must not turn "statement not found here" into a violation for such a function
+    opaque = []
+    for c in q.calls(node):
+        h = resolve_call(repo, cur, c)
+        if h is not None and h.file == fi.file and h.name.startswith("_") and not h.name.startswith("__") and h.name not in no_inline and h.qualname != fi.qualname:
+            opaque.append(h.name)
     if not changed_any:
-        cache[key] = fi
-        return fi
-    ast.fix_missing_locations(node)
-    res = FuncInfo(fi.module, fi.qualname, node, fi.cls, fi.parent)
+        res = fi if not opaque else FuncInfo(fi.module, fi.qualname, fi.node, fi.cls, fi.parent)
+    else:
+        ast.fix_missing_locations(node)
+        res = FuncInfo(fi.module, fi.qualname, node, fi.cls, fi.parent)
+    if opaque:
+        res._opaque = sorted(set(opaque))
     cache[key] = res
     return res
+
+
+class GuardedCheck:
+    """Proxy of vt.report.Check used by the HTTP property modules: a failed obligation on a function that still
+    calls private helpers the normaliser could not inline is not positive evidence (the governed statement may live
+    in the helper) — it ends in AnalysisError instead of a VIOLATION."""
+
+    def __init__(self, ck):
+        object.__setattr__(self, "_ck", ck)
+
+    def __getattr__(self, name):
+        return getattr(object.__getattribute__(self, "_ck"), name)
+
+    def __setattr__(self, name, value):
+        setattr(object.__getattribute__(self, "_ck"), name, value)
+
+    def ob(self, rule, fi, node, ok, what, *a, **kw):
+        if not ok and fi is not None and getattr(fi, "_opaque", None):
+            raise AnalysisError("%s at %s: not decided — private helper(s) %s of %s could not be inlined" % (rule, fi.site(node) if isinstance(node, ast.AST) else fi.qualname, ", ".join(fi._opaque), fi.qualname))
+        return object.__getattribute__(self, "_ck").ob(rule, fi, node, ok, what, *a, **kw)
 
 
 # ---------------------------------------------------------------------------
